@@ -93,7 +93,7 @@ def gen_jobshop(rng):
     configs = []
     for rule in ("spt", "lpt", "fifo", "mwkr", "random"):
         configs.append({"rule": rule, "local_search": False, "seed": rng.randint(0, 999)})
-        configs.append({"rule": rule, "local_search": True, "max_iter": rng.choice([1, 5, 40]), "seed": rng.randint(0, 999)})
+        configs.append({"rule": rule, "local_search": True, "max_iter": rng.choice([0, 1, 5, 40]), "seed": rng.randint(0, 999)})
     return {"jobs": jobs, "configs": configs}
 
 
@@ -108,7 +108,7 @@ def gen_vrp_tight(rng, mode="solve"):
     veh = rng.randint(2, 3)
     total = sum(c[1] * c[5] for c in customers)
     cap = max(4, int(total / veh * rng.choice([0.6, 0.8, 1.0, 1.3])))
-    case = {"customers": customers, "vehicles": veh, "capacity": cap, "seed": rng.randint(0, 10 ** 6), "mode": mode, "max_iter": 150}
+    case = {"customers": customers, "vehicles": veh, "capacity": cap, "seed": rng.randint(0, 10 ** 6), "mode": mode, "max_iter": rng.choice([0, 1, 150, 150, 150])}
     if mode == "sequence":
         names = list(OPS)
         case["sequence"] = ["sync_aware_insertion"] + [rng.choice(names) for _ in range(rng.randint(6, 16))]
